@@ -8,6 +8,24 @@
 #ifndef VERIF_SOCKET_H
 #define VERIF_SOCKET_H
 
+/* ghosts and unit-supplied facts used by annot/socket.c.net.ann (every unit that includes the annotated
+ * src/socket.c sees them) */
+size_t vg_iter;            /* iterations of spif_socket_send's back-off loop */
+int vg_fd0; unsigned vg_calls0;   /* spif_socket_close: descriptor and close() count at entry */
+unsigned vg_accept_again;         /* EAGAIN answers given by the accept() stub of units/C19/accept.c */
+#ifndef VG_SEND_ERRNO_INV
+# define VG_SEND_ERRNO_INV 1
+#endif
+
+/* goto-instrument --dfcc aborts (goto_inline, "parameter_assignments Unreachable") on a CALLEE that has a loop
+ * contract and expands __DEBUG(), i.e. fprintf(.., (unsigned long) time(NULL), ..) with env.h's time() body nested
+ * in the argument.  Units that apply the retry-loop contracts re-bind time() for the debug prints of socket.c to
+ * a ghost clock value (only ever printed). */
+#if defined(NET_GHOST_CLOCK) && !defined(VERIF_NATIVE)
+long vg_now;
+# define time(p) ((time_t) vg_now)
+#endif
+
 #define SOCK_FD_OK(s)  ((s)->fd < 0 || VG_FD_OPEN((s)->fd))
 #define SOCK_IS(s)     (__CPROVER_is_fresh((s), sizeof(spif_const_socket_t)))
 /* number of open descriptors other than `fd` is what it was: rendered element-wise with the ghost index
